@@ -588,9 +588,9 @@ func verifC08WaitEligible(links map[string]*channelLink) error {
 
 func (v *verifC08Net) startNet() error {
 	n := v.n
-	// The fixture gives the switches force-tickers that never tick, which
-	// leaves the switch's batched settle/fail acknowledgement (and the
-	// forwarding-event flush) dead; production uses real tickers (15 s).
+	// The fixture's switch tickers keep the production interval (15 s),
+	// longer than a case lasts, which leaves the switch's batched
+	// settle/fail acknowledgement (and the forwarding-event flush) dead.
 	for _, srv := range []*mockServer{n.aliceServer, n.bobServer, n.carolServer} {
 		srv.htlcSwitch.cfg.AckEventTicker = ticker.New(15 * time.Millisecond)
 		srv.htlcSwitch.cfg.FwdEventTicker = ticker.New(40 * time.Millisecond)
